@@ -24,11 +24,16 @@ func TestMain(m *testing.M) { vlib.Main(m) }
 // tripwire is a deliberately non-thread-safe slice deque that detects
 // overlapping entry and widens its critical section with yields.
 type tripwire struct {
-	inside   int32
-	overlaps int64
-	yields   int
-	items    []int
+	inside     int32
+	overlaps   int64
+	yields     int
+	items      []int
+	panicEvery int // every k-th insertion panics instead of inserting (a wrapped structure may do that, e.g. a bounded queue)
+	puts       int
 }
+
+// tripwirePanic is the panic value of a deliberately failing wrapped insertion.
+type tripwirePanic struct{}
 
 func (w *tripwire) enter() {
 	if !atomic.CompareAndSwapInt32(&w.inside, 0, 1) {
@@ -40,9 +45,18 @@ func (w *tripwire) enter() {
 }
 func (w *tripwire) exit() { atomic.StoreInt32(&w.inside, 0) }
 
-func (w *tripwire) Put(v int) error   { return w.Offer(v) }
-func (w *tripwire) Offer(v int) error { w.enter(); defer w.exit(); w.items = append(w.items, v); return nil }
-func (w *tripwire) Push(v int) error  { return w.Offer(v) }
+func (w *tripwire) Put(v int) error { return w.Offer(v) }
+func (w *tripwire) Offer(v int) error {
+	w.enter()
+	defer w.exit()
+	w.puts++
+	if w.panicEvery > 0 && w.puts%w.panicEvery == 0 {
+		panic(tripwirePanic{})
+	}
+	w.items = append(w.items, v)
+	return nil
+}
+func (w *tripwire) Push(v int) error   { return w.Offer(v) }
 func (w *tripwire) Take() (int, error) { return w.Poll() }
 func (w *tripwire) Poll() (int, error) {
 	w.enter()
@@ -80,11 +94,14 @@ type scenario struct {
 	Yields  int     `json:"yields"`
 	Threads [][]int `json:"threads"` // per goroutine: list of op kinds
 	Prefill int     `json:"prefill"`
+	// PanicEvery > 0 (tripwire only): every k-th insertion into the wrapped structure panics;
+	// the caller recovers it; the wrapper must stay usable for everybody else
+	PanicEvery int `json:"panicEvery"`
 }
 
 func (s scenario) String() string {
 	var sb strings.Builder
-	fmt.Fprintf(&sb, "stack=%v wrapped=%s yields=%d prefill=%d", s.Stack, s.Wrapped, s.Yields, s.Prefill)
+	fmt.Fprintf(&sb, "stack=%v wrapped=%s yields=%d prefill=%d panicEvery=%d", s.Stack, s.Wrapped, s.Yields, s.Prefill, s.PanicEvery)
 	for i, th := range s.Threads {
 		fmt.Fprintf(&sb, " g%d=", i)
 		for _, k := range th {
@@ -125,6 +142,9 @@ func genScenario(t *rapid.T) scenario {
 	p := rapid.IntRange(1, maxG).Draw(t, "P")
 	k := rapid.IntRange(1, maxG).Draw(t, "K")
 	s.Prefill = rapid.IntRange(0, 6).Draw(t, "prefill")
+	if s.Wrapped == "tripwire" && rapid.IntRange(0, 3).Draw(t, "panics") == 0 {
+		s.PanicEvery = rapid.IntRange(2, 7).Draw(t, "panicEvery")
+	}
 	for i := 0; i < p+k; i++ {
 		n := rapid.IntRange(1, maxOps).Draw(t, "n")
 		th := make([]int, n)
@@ -152,7 +172,7 @@ func genScenario(t *rapid.T) scenario {
 	return s
 }
 
-func runScenario(s scenario) result {
+func runScenarioInner(s scenario) result {
 	var res result
 	var clock int64
 	var put func(int) error
@@ -163,7 +183,7 @@ func runScenario(s scenario) result {
 	if s.Stack {
 		var inner fpgo.Stack[int]
 		if s.Wrapped == "tripwire" {
-			tw = &tripwire{yields: s.Yields}
+			tw = &tripwire{yields: s.Yields, panicEvery: s.PanicEvery}
 			inner = tw
 		} else {
 			inner = fpgo.NewLinkedListQueue[int]()
@@ -174,7 +194,7 @@ func runScenario(s scenario) result {
 	} else {
 		var inner fpgo.Queue[int]
 		if s.Wrapped == "tripwire" {
-			tw = &tripwire{yields: s.Yields}
+			tw = &tripwire{yields: s.Yields, panicEvery: s.PanicEvery}
 			inner = tw
 		} else {
 			inner = fpgo.NewLinkedListQueue[int]()
@@ -183,13 +203,28 @@ func runScenario(s scenario) result {
 		put, putAlt = cq.Put, cq.Offer
 		take, takeAlt = cq.Take, cq.Poll
 	}
+	// safePut runs an insertion; a deliberate tripwire panic is recovered and reported as "not inserted"
+	safePut := func(f func(int) error, v int) (inserted bool, err error) {
+		defer func() {
+			if r := recover(); r != nil {
+				if _, mine := r.(tripwirePanic); !mine {
+					panic(r)
+				}
+				inserted = false
+			}
+		}()
+		err = f(v)
+		return true, err
+	}
 	nextVal := 1
 	var all []opRec
 	for i := 0; i < s.Prefill; i++ {
 		c := atomic.AddInt64(&clock, 1)
-		err := put(nextVal)
+		ins, err := safePut(put, nextVal)
 		r := atomic.AddInt64(&clock, 1)
-		all = append(all, opRec{client: len(s.Threads), kind: kPut, val: nextVal, ok: err == nil, call: c, ret: r})
+		if ins {
+			all = append(all, opRec{client: len(s.Threads), kind: kPut, val: nextVal, ok: err == nil, call: c, ret: r})
+		}
 		nextVal++
 	}
 	// pre-assign values
@@ -219,10 +254,18 @@ func runScenario(s scenario) result {
 					switch k {
 					case kPut:
 						rec.val = vals[i][j]
-						rec.ok = put(rec.val) == nil
+						ins, err := safePut(put, rec.val)
+						if !ins {
+							continue
+						}
+						rec.ok = err == nil
 					case kOffer:
 						rec.val = vals[i][j]
-						rec.ok = putAlt(rec.val) == nil
+						ins, err := safePut(putAlt, rec.val)
+						if !ins {
+							continue
+						}
+						rec.ok = err == nil
 					case kTake:
 						v, err := take()
 						rec.val, rec.ok = v, err == nil
@@ -252,6 +295,7 @@ func runScenario(s scenario) result {
 	case <-done:
 	case <-time.After(vlib.StallBudget()):
 		// a corrupted list cannot loop (all walks are bounded), so this is a real hang
+		// (e.g. the wrapper's lock was not released after a panic of the wrapped call)
 		res.failKey, res.failMsg = "C08/hang", "goroutines did not finish:\n"+vlib.AllStacks()
 		return res
 	}
@@ -387,6 +431,19 @@ outer:
 	return res
 }
 
+// runScenario guards the whole scenario (incl. the single-threaded prefill and drain) against hangs:
+// every wrapped walk is bounded, so a call that never returns means the wrapper's lock was lost.
+func runScenario(s scenario) result {
+	ch := make(chan result, 1)
+	go func() { ch <- runScenarioInner(s) }()
+	select {
+	case r := <-ch:
+		return r
+	case <-time.After(3 * vlib.StallBudget()):
+		return result{failKey: "C08/hang", failMsg: "a call on the wrapper never returned (lock not released?):\n" + vlib.AllStacks()}
+	}
+}
+
 func trimStack(stack string) string {
 	var keep []string
 	for _, l := range strings.Split(stack, "\n") {
@@ -475,6 +532,8 @@ func report(t vlib.TB, s scenario, res result, skip func()) {
 }
 
 var regressions = []scenario{
+	// a panicking wrapped insertion must not leave the wrapper locked
+	{Stack: false, Wrapped: "tripwire", Prefill: 1, PanicEvery: 2, Threads: [][]int{{kPut, kPut, kPut, kPoll}, {kOffer, kTake, kOffer}}},
 	// DESIGN §4 #12: Take/Poll/Pop only under RLock — consumers race inside the wrapped structure
 	{Stack: false, Wrapped: "tripwire", Yields: 3, Prefill: 6, Threads: [][]int{{kTake, kTake, kTake}, {kPoll, kPoll, kPoll}}},
 	{Stack: true, Wrapped: "tripwire", Yields: 3, Prefill: 6, Threads: [][]int{{kTake, kTake, kTake}, {kTake, kTake, kTake}}},
